@@ -50,7 +50,7 @@ func C16(r *drv.Run) {
 	if !quick(r) {
 		nrand = 400000
 	}
-	r.Rule = "exhaustive: every byte 0x01..0x7f in every spelling it has (raw, backslash+char, named escape, \\xHH, \\xhh) in both quote styles, alone and embedded between two other bytes; malformed \\x followed by 0, 1 or 2 hex digits and every other printable follower (must keep all following characters); seeded random ASCII strings (length 1..8) with a random spelling per byte. The harness composes the denoted bytes b and the spelling, so it knows both. Oracle: `find all <literal>` on b reports exactly [0,len b); on every one-byte substitution of b (neighbour values, case flip, 3 random bytes per position) it reports nothing of that span. Non-trivial = every distinct literal spelling verified on b and on its near misses."
+	r.Rule = "exhaustive: every byte 0x01..0x7f in every spelling it has (raw, backslash+char, named escape, \\xHH, \\xhh) in both quote styles, alone and embedded between two other bytes; malformed \\x followed by 0, 1 or 2 hex digits and EVERY printable two-character continuation that is not a hex pair (~8 700 per quote style; must keep all following characters); seeded random ASCII strings (length 1..8) with a random spelling per byte. The harness composes the denoted bytes b and the spelling, so it knows both. Oracle: `find all <literal>` on b reports exactly [0,len b); on every one-byte substitution of b (neighbour values, case flip, 3 random bytes per position) it reports nothing of that span. Non-trivial = every distinct literal spelling verified on b and on its near misses."
 	r.Assumptions = []string{"ASCII bytes 0x01..0x7f only, as the property says (the lexer writes \\x80..\\xff as two-byte runes)"}
 	var cases []c16Case
 	for _, q := range []byte{'\'', '"'} {
@@ -63,6 +63,15 @@ func C16(r *drv.Run) {
 		}
 		// malformed \x
 		followers := []string{"", "Z", "g", " ", "-", "4", "4Z", "4g", "f", "fZ", "ZZ", "Z4", "x41", "\\\\", "\\n"}
+		// every printable two-character continuation that is not a hex pair keeps both characters
+		for c1 := byte(0x20); c1 < 0x7f; c1++ {
+			for c2 := byte(0x20); c2 < 0x7f; c2++ {
+				if c1 == q || c2 == q || c1 == '\\' || c2 == '\\' || (isHexByte(c1) && isHexByte(c2)) {
+					continue
+				}
+				cases = append(cases, c16Case{string(q) + "\\x" + string([]byte{c1, c2}) + string(q), "x" + string([]byte{c1, c2}), "malformed-hex-pair"})
+			}
+		}
 		for _, f := range followers {
 			lit := string(q) + "\\x" + f + string(q)
 			den := "x" + f
